@@ -27,6 +27,7 @@ fn main() {
 		"http_client_batch_positional" => probes::http_client_batch_positional(),
 		"http_client_single_reply_id" => probes::http_client_single_reply_id(),
 		"client_pending_ids_distinct" => probes::client_pending_ids_distinct(),
+		"client_futures_bounded_by_timeout" => probes::client_futures_bounded_by_timeout(),
 		"client_positional_notification_routing" => probes::client_positional_notification_routing(),
 		"subscribe_reply_size_limit" => probes::subscribe_reply_size_limit(),
 		"client_lagged_stream_no_holes" => probes::client_lagged_stream_no_holes(),
